@@ -77,7 +77,9 @@ where
         dsize: Dsize(1),
     };
     let sk = make_sk::<B>(m, n, rank, Dist::TernaryProb, seed_s(inp.s));
+    let _guard_sk = SkGuard::new("glwe secret", m, &sk);
     let (sk_lwe, bits_lwe) = make_lwe_sk(N_LWE, Dist::BinaryProb, seed_p(inp.p));
+    let _guard_lwe = RawGuard::new("lwe secret", sk_lwe.raw());
     let mut xe = Source::new(seed_e(inp.e));
     let mut xa = Source::new(seed_a(inp.a));
     let parse_brk = |mut rd: &[u8]| -> Result<(Vec<Cell>, usize), String> {
@@ -116,6 +118,7 @@ where
                 roundtrip: None,
                 bits,
                 key_l1: sk.l1,
+                ..Default::default()
             })
         }
         Routine::BrkCompressed => {
@@ -170,6 +173,7 @@ where
                 roundtrip: Some(rt.iter().map(|x| (x.body.clone(), x.mask.clone())).collect()),
                 bits,
                 key_l1: sk.l1,
+                ..Default::default()
             })
         }
         Routine::Cbt => {
@@ -240,6 +244,7 @@ where
                 roundtrip: None,
                 bits,
                 key_l1: sk.l1,
+                ..Default::default()
             })
         }
         _ => unreachable!(),
